@@ -571,13 +571,34 @@ func (fv *FuncVer) applyContract(st *State, ins ssa.Instruction, blk *Block, ful
 		}
 	}
 	site := fv.callSiteAnchor(ins, short)
+	trusted := false
+	if tc, ok := fv.block.Flags["trustcalls"]; ok && len(st.frames) == 1 {
+		for _, n := range strings.Fields(strings.ReplaceAll(tc, ",", " ")) {
+			if strings.HasSuffix(fullName, "."+n) || strings.HasSuffix(fullName, ")."+n) {
+				trusted = true
+				fv.trustedCalls[short] = true
+			}
+		}
+	}
 	for i, cl := range blk.ClausesOf("requires") {
 		g := fv.evalBool(env, cl.Expr)
 		label := cl.Name
 		if label == "" {
 			label = fmt.Sprintf("#%d", i+1)
 		}
-		fv.oblige(st, "call:"+short+"/requires["+label+"]", site, ins.Pos(), g, "precondition of "+short+": "+cl.Text)
+		if !trusted {
+			fv.oblige(st, "call:"+short+"/requires["+label+"]", site, ins.Pos(), g, "precondition of "+short+": "+cl.Text)
+		}
+		st.assume(g)
+	}
+	// precall: obligations on the caller's path (its call events) that are not assumed inside the callee
+	for i, cl := range blk.ClausesOf("precall") {
+		g := fv.evalBool(env, cl.Expr)
+		label := cl.Name
+		if label == "" {
+			label = fmt.Sprintf("#%d", i+1)
+		}
+		fv.oblige(st, "call:"+short+"/precall["+label+"]", site, ins.Pos(), g, "on the caller's path before "+short+": "+cl.Text)
 		st.assume(g)
 	}
 	pre := st.clone()
